@@ -564,6 +564,66 @@ func checkViews(c *lib.Case, s *netsim.Sim, r *netsim.Replica, refSeq []string, 
 		}
 		c.Count("views.history_at_change", 1)
 	}
+	// a history view at SEVERAL concurrent heads (what "before a merge change" resolves to) must present the full
+	// order restricted to its contents (added while looking at seeded change C06-6)
+	if len(refSeq) > 3 {
+		anc := func(id string) map[string]bool {
+			out := map[string]bool{}
+			stack := []string{id}
+			for len(stack) > 0 {
+				x := stack[len(stack)-1]
+				stack = stack[:len(stack)-1]
+				if out[x] {
+					continue
+				}
+				out[x] = true
+				stack = append(stack, byId[x].PrevIds...)
+			}
+			return out
+		}
+		for try := 0; try < 12; try++ {
+			a, b := refSeq[1+c.Rng.Intn(len(refSeq)-1)], refSeq[1+c.Rng.Intn(len(refSeq)-1)]
+			if a == b {
+				continue
+			}
+			pa, pb := anc(a), anc(b)
+			if pa[b] || pb[a] {
+				continue // not concurrent
+			}
+			heads := []string{a, b}
+			sort.Strings(heads)
+			if c.Rng.Intn(2) == 0 {
+				heads[0], heads[1] = heads[1], heads[0]
+			}
+			ht3, err := objecttree.BuildHistoryTree(objecttree.HistoryTreeParams{Storage: st, AclList: acl, Heads: heads, IncludeBeforeId: true})
+			c.Count("views.history_at_concurrent_heads", 1)
+			if err != nil {
+				c.Violation("history-build-failed:at-concurrent-heads", "cannot build a history tree at two concurrent changes", det(map[string]any{"err": err.Error(), "heads": heads}))
+				break
+			}
+			var h3 []string
+			ht3.IterateRoot(nil, func(ch *objecttree.Change) bool { h3 = append(h3, ch.Id); return true })
+			in := setOf(h3)
+			if want := restrict(refSeq, in); !eq(h3, want) {
+				c.Violation("history-order-differs:at-concurrent-heads", "a history view at concurrent heads is not the full order restricted to what it contains", det(map[string]any{"who": who, "heads": heads, "first_difference": firstDiff(want, h3)}))
+				break
+			}
+			// Which changes such a view contains is NOT part of the statement (it only demands that a view is the full
+			// order restricted to what it contains): on the unchanged code 16 of 1803 sampled views lack one of the two
+			// requested heads (the common snapshot of two concurrent same-counter snapshots is taken to be one of
+			// them). Counted, not judged - judging it would demand more than the property states.
+			if !in[a] || !in[b] {
+				c.Count("views.history_at_concurrent_heads.lacks_a_requested_head(counted)", 1)
+			}
+			for _, id := range h3 {
+				if !pa[id] && !pb[id] {
+					c.Count("views.history_at_concurrent_heads.holds_change_outside_causal_past(counted)", 1)
+					break
+				}
+			}
+			break
+		}
+	}
 	// reopen
 	if err := r.Restart(); err != nil {
 		c.Violation("reopen-failed:"+who, "the tree cannot be reopened from its own storage", det(map[string]any{"err": err.Error()}))
